@@ -1,0 +1,50 @@
+//go:build verif
+
+package cmd
+
+// Contracts for gvc (see /verif/DESIGN.md). Comment-only: this file adds no code to any build.
+
+// go-playground/validator (reflection over struct tags) is outside the verified subset: it reports a verdict.
+//@ extern github.com/gopher-fleece/gleece/v2/infrastructure/validation.ValidateStruct
+//@ emits validatedConfig(result == nil)
+//@ extern github.com/gopher-fleece/gleece/v2/infrastructure/validation.ExtractValidationErrorMessage
+
+//@ func LoadGleeceConfig props C20,C10,C14
+//@ mayemit validatedConfig
+//@ ensures gate: implies(result1 == nil, result0 != nil && evcount(validatedConfig) == old(evcount(validatedConfig))+1 && evlast(validatedConfig, 0))
+//@ ensures failed: implies(result1 != nil, result0 == nil)
+//@ ensures once: evcount(validatedConfig) <= old(evcount(validatedConfig))+1
+
+// Source analysis (pipeline construction + Run): any heap may change; events as declared.
+//@ func getFullMetadata trusted havocs
+//@ emits analysedSources()
+//@ mayemit intermediateBuilt, severityFiltered
+
+//@ func GetConfigAndMetadata props C20,C10,C14 havocs
+//@ mayemit validatedConfig, analysedSources, intermediateBuilt, severityFiltered
+//@ ensures order: implies(evcount(analysedSources) > old(evcount(analysedSources)), evcount(validatedConfig) > old(evcount(validatedConfig)) && evlast(validatedConfig, 0))
+//@ ensures failed: implies(evcount(analysedSources) == old(evcount(analysedSources)), result2 != nil)
+//@ ensures cfg: implies(result2 == nil, result0 != nil)
+
+//@ func GenerateSpec props C20,C10,C08,C14 havocs
+//@ mayemit validatedConfig, analysedSources, validatedSpec, wroteFile, intermediateBuilt, severityFiltered
+//@ ensures gate: implies(evcount(wroteFile) > old(evcount(wroteFile)), evcount(validatedConfig) > old(evcount(validatedConfig)) && evcount(analysedSources) > old(evcount(analysedSources)) && evcount(validatedSpec) > old(evcount(validatedSpec)))
+
+//@ func GenerateRoutes props C20,C10,C09,C14 havocs
+//@ mayemit validatedConfig, analysedSources, formattedCode, wroteFile, intermediateBuilt, severityFiltered
+//@ ensures gate: implies(evcount(wroteFile) > old(evcount(wroteFile)), evcount(validatedConfig) > old(evcount(validatedConfig)) && evcount(analysedSources) > old(evcount(analysedSources)) && evcount(formattedCode) > old(evcount(formattedCode)))
+
+//@ func GenerateSpecAndRoutes props C20,C10,C08,C09,C14 havocs
+//@ mayemit validatedConfig, analysedSources, formattedCode, validatedSpec, wroteFile, intermediateBuilt, severityFiltered
+//@ ensures gate: implies(evcount(wroteFile) > old(evcount(wroteFile)), evcount(validatedConfig) > old(evcount(validatedConfig)) && evcount(analysedSources) > old(evcount(analysedSources)) && evcount(formattedCode) > old(evcount(formattedCode)))
+//@ ensures ok: implies(result == nil, evcount(wroteFile) == old(evcount(wroteFile))+2)
+
+// Command-line roots (cobra wiring, the separate `dump` command): not called from code under contract.
+//@ func init trusted havocs
+//@ mayemit validatedConfig, analysedSources, formattedCode, validatedSpec, wroteFile, intermediateBuilt, severityFiltered
+//@ func dumpGraph trusted havocs
+//@ mayemit validatedConfig, analysedSources, wroteFile, intermediateBuilt, severityFiltered
+//@ func loadGleeceConfig trusted havocs
+//@ mayemit validatedConfig
+//@ func getPipeline trusted havocs
+//@ mayemit validatedConfig
